@@ -50,7 +50,7 @@ func (v *Verifier) needIntIdx(pos token.Pos, what string) {
 
 // execSend: ch <- v. For chan []byte the bytes are appended to the channel's byte log.
 func (v *Verifier) execSend(fr *Frame, st *State, x *ast.SendStmt) {
-	c := v.eng.C
+	_ = v.eng.C
 	ch, ok := v.eval(fr, st, x.Chan).(OpaqueVal)
 	if !ok {
 		panic(unsupportedf(x.Pos(), "send on non-channel value"))
@@ -63,6 +63,13 @@ func (v *Verifier) execSend(fr *Frame, st *State, x *ast.SendStmt) {
 	}
 	v.needIntIdx(x.Pos(), "channel byte log")
 	v.intrinsicsUsed["chan []byte send: the bytes are committed to the receiver in FIFO order (channel hand-off to the writer goroutine)"] = true
+	v.logAppend(st, ch.ID, sv)
+}
+
+// logAppend appends the bytes of sv to the byte log of object id (channel or bytes.Buffer).
+func (v *Verifier) logAppend(st *State, id *Term, sv SliceVal) {
+	c := v.eng.C
+	ch := OpaqueVal{ID: id}
 	lenH := v.ghostHeap(st, gChanLen)
 	dataH := v.ghostHeap(st, gChanData)
 	n0 := c.Select(lenH, ch.ID)
@@ -114,10 +121,7 @@ func (v *Verifier) ghostBuiltin(fr *Frame, st *State, name string, x *ast.CallEx
 		case OpaqueVal:
 			return o.ID
 		case PtrVal:
-			if o.Loc != nil {
-				panic(unsupportedf(e.Pos(), "%s: static pointer has no identity", name))
-			}
-			return o.Ref
+			return v.ptrIdentity(o, e.Pos())
 		}
 		panic(unsupportedf(e.Pos(), "%s: argument has no identity", name))
 	}
